@@ -1,5 +1,6 @@
 import Cutplace.Model.Cid
 import Cutplace.Props.C18
+import Cutplace.Proofs.RangeTotal
 /-
 C10  CID and data problems surface as cutplace errors, never as internal failures.
 
@@ -56,6 +57,16 @@ theorem C10_row_dispatch (cid : Cid) (row : List Str) (w : Bool) (enc : Str → 
     (rowKind row = .unknown → readRow cid row w enc = .error .iface) ∧
     (rowKind row = .comment → readRow cid row w enc = .ok cid) := by
   constructor <;> (intro h; simp [readRow, h])
+
+/-- **A range description can only be refused as an interface error.** Whatever a CID cell hands to
+`Range()` — a length, an Integer rule, "Allowed characters" — and whatever the default is, the
+tokenizer (`tokenize.TokenError` is converted), the value conversions (`int`, `unicode_escape`,
+symbolic names), the token loop and the overlap test either succeed or raise `InterfaceError`;
+`StopIteration`, `AssertionError`, `UnicodeDecodeError` and the like are unreachable.  (`unsupported`
+marks descriptions outside the modelled tokenizer fragment, which the correspondence never compares.) -/
+theorem C10_range_total (description : Str) (default : Option Str) (e : PyExn)
+    (h : Range.parse description default = .error e) : e = .iface ∨ e = .unsupported :=
+  Range.parse_clean description default e h
 
 /-- a field row before the data format, and a data-format row that does not start with Format, are
 interface errors (not assertion failures) -/
